@@ -214,6 +214,18 @@ def body_geometry(ctx, case):
               lambda: "heights now %r baseline now %r; " % (h_arr.tolist(), b_arr.tolist()) + desc())
     ctx.check(first.shape == second.shape and np.array_equal(first, second) and first.shape == np.asarray(coords).shape and np.array_equal(first, coords),
               "second_crop_of_the_same_line_differs", lambda: "shapes %r %r %r; " % (first.shape, second.shape, np.asarray(coords).shape) + desc())
+    # the cropper's settings are plain attributes that callers change at run time (the baseline refiner builds croppers with
+    # other settings; notebooks flip INTERP): after a detour through other settings the same settings give the same map
+    saved = (eng.poly, eng.scale, eng.line_height)
+    eng.poly, eng.scale, eng.line_height = (saved[0] + 1) % 3, saved[1] * 1.25, 48 if saved[2] != 48 else 32
+    try:
+        eng.crop(img, b_arr.copy(), h_arr.copy())
+    except Exception:  # noqa: BLE001 - the detour itself is not judged here
+        pass
+    eng.poly, eng.scale, eng.line_height = saved
+    back = np.asarray(eng.get_crop_inputs(b_arr, h_arr, case["line_height"]))
+    ctx.check(back.shape == first.shape and np.array_equal(back, first), "crop_map_depends_on_settings_the_cropper_had_before",
+              lambda: "shapes %r %r; " % (back.shape, first.shape) + desc())
     # the same line in the containers / dtypes callers use: lists, float32, and - when the coordinates are integral and
     # small enough - the integer arrays detectors and PAGE XML import produce (int64, int32, int16)
     variants = [("list", [list(p) for p in case["baseline"]]), ("float32", base.astype(np.float32))]
